@@ -12,6 +12,7 @@ import (
 	"strconv"
 
 	"github.com/dcaiafa/lox/verif/internal/mc"
+	"github.com/dcaiafa/lox/verif/internal/pipe"
 )
 
 func main() {
@@ -29,6 +30,14 @@ func main() {
 		os.Exit(mc.RunWorker(os.Args[2], os.Args[3], i, n, os.Args[6]))
 	case "replay":
 		os.Exit(mc.RunReplay(os.Args[2]))
+	case "genreal":
+		// one real codegen.Generate in a fresh process (reference for C13's in-process histories)
+		ok, diag, pmsg := pipe.RunReal(os.Args[2])
+		if !ok || pmsg != "" {
+			fmt.Fprintln(os.Stderr, diag, pmsg)
+			os.Exit(1)
+		}
+		os.Exit(0)
 	case "selfcheck":
 		os.Exit(selfCheck())
 	default:
